@@ -50,6 +50,10 @@ def explain(res):
         return "after step %d: %s" % (res[1], explain_obs(res[2:]))
     if k == 4:
         return "after the killed Create at step %d the database is neither the one before nor the one after it: %s" % (res[1], explain_obs(res[2:]))
+    if k == 41:
+        return "cosmosdb: item #%d that planToItems emitted for plan #%d differs from the model's (columns, pos or order of emission)" % (res[2], res[1])
+    if k == 42:
+        return "cosmosdb: the model's planToItems rejects plan #%d but the implementation emitted items" % res[1]
     if k == 8:
         return "unknown backend"
     if k == 9:
